@@ -259,7 +259,7 @@ def _admissible2(ctx, s2, dt, datas):
     from ..sites2 import (comp_parts, const_bool_seq, const_dtype, dtype_of, element_values, is_bool_term, is_never_none_term,
                           same_elements_of, strip_seq)
     from ..symx import NONE as SNONE
-    from ..symx import flatten_conds
+    from ..symx import flatten_conds, subterms
     it = s2.it
     f = s2.func
     sh = s2.sh
@@ -298,6 +298,18 @@ def _admissible2(ctx, s2, dt, datas):
                     return (False, f"dtype is the constant non-nullable <{Kt}> but the data are {sh(obj, 20)}'s own elements, which may "
                                    f"contain None" + ("" if Kt == "object" else " or values of another kind"))
             return (None, f"constant non-nullable <{Kt}> over unclassified data")
+        # a flag that was being collected by a loop inside a `try` and is read in the handler: the exception cut the loop short, so
+        # the flag knows only the Nones of the positions visited so far - the data stored here come from another pass over everything
+        if not isinstance(nn, bool) and any(x == ("name", "<raised-before>") for x in subterms(nn)) and datas:
+            may_none = False
+            for d in datas:
+                evs_ = element_values(it, d)
+                if evs_ is None or any(v == SNONE or (v[0] == "ifexp" and SNONE in (v[2], v[3])) for v, _ in evs_):
+                    may_none = True
+            if may_none:
+                return (False, f"the nullable flag of the constant <{Kt}> label (`{sh(nn, 50)}`) was collected by a loop that the handled exception "
+                               f"cut short, while the stored values are built by another pass and can hold a None the flag never saw: a "
+                               f"non-nullable label over data with None")
         # object kind, nullable exactly when the stored data holds a None: any(v is None for v in <the data>)
         if Kt == "object" and nn[0] == "call" and nn[1] == ("name", "any") and len(nn[2]) == 1 and not nn[3] and nn[2][0][0] == "obj" \
                 and it.objs[nn[2][0][1]].kind in ("genexp", "listcomp") and datas:
